@@ -52,9 +52,11 @@ class C09(E1Check):
     def units(self, tier: str, seed: int) -> list:
         progs = []
         spawn_opts = []
-        for how in ("start_task", "soon"):
+        for how in ("start_task", "soon", "soon-cancel"):
             for place in PLACES:
                 for body in BODIES:
+                    if how == "soon-cancel" and (body not in ("forever", "ret") or place not in ("F", "task")):
+                        continue
                     spawn_opts.append({"how": how, "place": place, "body": body})
         for fctx in ("root", "nested"):
             for handler in HANDLERS:
@@ -189,6 +191,12 @@ class C09(E1Check):
                     h = await factory.start_task(body, f"t{i}")
                 else:
                     h = factory.start_task_soon(body, f"t{i}")
+                    if s["how"] == "soon-cancel":
+                        # cancel through the handle before the task has had a chance to run
+                        log("cancel", i)
+                        st.setdefault("cancelled", set()).add(i)
+                        st.setdefault("cancelled_early", set()).add(i)
+                        h.cancel()
             except BaseException as e:  # noqa: BLE001
                 st["pending_spawn"].discard(i)
                 st["failed_spawns"].add(i)
@@ -198,7 +206,7 @@ class C09(E1Check):
             st["pending_spawn"].discard(i)
             log("spawned", i)
             htg.start_soon(waiter, i, h)
-            if s["body"] in ("forever", "ret"):
+            if s["body"] in ("forever", "ret") and s["how"] != "soon-cancel":
                 def cancel(i: int = i, h: Any = h) -> None:
                     log("cancel", i)
                     st.setdefault("cancelled", set()).add(i)
@@ -347,6 +355,11 @@ class C09(E1Check):
             be = next((j for j, ev in enumerate(tr) if ev[0] == "body-" and ev[1] == i), None)
             if be is not None and be > ci and not any(ev[0] == "body!" and ev[1] == i and ev[2] == "CancelledError" for ev in tr) and spawns[i]["body"] == "forever":
                 fail("cancel", f"handle.cancel() of task {i} did not cancel it")
+        for i in st.get("cancelled_early", set()):
+            if any(ev[:3] == ("env", "gate", f"body{i}") for ev in tr):
+                fail("cancel", f"task {i} was cancelled through its handle right after start_task_soon() but kept running until its gate was opened")
+            if not any(ev[0] == "body!" and ev[1] == i and ev[2] == "CancelledError" for ev in tr) and any(ev[0] == "body+" and ev[1] == i for ev in tr):
+                fail("cancel", f"task {i} was cancelled through its handle right after start_task_soon() but its body never saw a cancellation")
         # teardown waits for all bodies
         fl = next((j for j, ev in enumerate(tr) if ev[0] == ("f-left" if program["fctx"] == "nested" else "root-left")), None)
         if fl is not None:
